@@ -194,9 +194,16 @@ def tv(t: Term, known: dict[Term, bool]) -> bool | None:
             return False
         if a[0] == "const" and b[0] == "const":
             try:
-                return {"is": a[1] is b[1] or (a[1] == b[1] and type(a[1]) is type(b[1]) and not isinstance(a[1], (tuple, float))),
-                        "eq": a[1] == b[1], "lt": a[1] < b[1], "le": a[1] <= b[1], "gt": a[1] > b[1], "ge": a[1] >= b[1],
-                        "in": a[1] in b[1]}.get(op)
+                if op == "is":
+                    return a[1] is b[1] or (a[1] == b[1] and type(a[1]) is type(b[1]) and not isinstance(a[1], (tuple, float)))
+                if op == "eq":
+                    return a[1] == b[1] and (type(a[1]) is type(b[1]) or not isinstance(a[1], bool) and not isinstance(b[1], bool))
+                if op == "lt":
+                    return a[1] < b[1]
+                if op == "le":
+                    return a[1] <= b[1]
+                if op == "in":
+                    return a[1] in b[1]
             except TypeError:
                 return None
         if op in ("is", "eq") and (is_const(b, None) or is_const(a, None)):
@@ -315,6 +322,8 @@ class Evaluator:
     def mk(self, t: Term) -> Term:
         if t[0] == "pcall" and t[1] == "len" and len(t[2]) == 1 and t[2][0][0] == "const" and isinstance(t[2][0][1], (str, bytes, tuple)):
             t = const(len(t[2][0][1]))
+        elif t[0] == "cmp" and t[2][0] == "const" and t[3][0] == "const" and tv(t, {}) is not None:
+            t = const(tv(t, {}))
         elif t[0] == "bin" and t[2][0] == "const" and t[3][0] == "const" and isinstance(t[2][1], int) and isinstance(t[3][1], int) and t[1] in ("Add", "Sub", "Mult"):
             t = const({"Add": t[2][1] + t[3][1], "Sub": t[2][1] - t[3][1], "Mult": t[2][1] * t[3][1]}[t[1]])
         return self.rewrite(t) if self.rewrite is not None else t
